@@ -217,19 +217,22 @@ theorem internTerm_len (ts : List Term) (t : Term) : (internTerm ts t).1 ≠ [] 
     rw [hnil] at hi
     exact Nat.not_lt_zero _ hi
 
-theorem analyzeCond_len : ∀ (e : AttrExp) (ts : List Term), (analyzeCond ts e).1 ≠ [] ∧ ts.length ≤ (analyzeCond ts e).1.length
-  | .leaf t, ts => by simpa [analyzeCond] using internTerm_len ts t
-  | .paren e, ts => by simpa [analyzeCond] using analyzeCond_len e ts
+theorem analyzeChain_len : ∀ (e : AttrExp) (ts : List Term), (analyzeChain ts e).1 ≠ [] ∧ ts.length ≤ (analyzeChain ts e).1.length
+  | .leaf t, ts => by simpa [analyzeChain] using internTerm_len ts t
+  | .paren e, ts => by simpa [analyzeChain] using analyzeChain_len e ts
   | .leafOp t op tail, ts => by
     obtain ⟨h1, h2⟩ := internTerm_len ts t
-    obtain ⟨g1, g2⟩ := analyzeCond_len tail (internTerm ts t).1
-    simp only [analyzeCond]
+    obtain ⟨g1, g2⟩ := analyzeChain_len tail (internTerm ts t).1
+    simp only [analyzeChain]
     exact ⟨g1, Nat.le_trans h2 g2⟩
   | .parenOp e op tail, ts => by
-    obtain ⟨h1, h2⟩ := analyzeCond_len e ts
-    obtain ⟨g1, g2⟩ := analyzeCond_len tail (analyzeCond ts e).1
-    simp only [analyzeCond]
+    obtain ⟨h1, h2⟩ := analyzeChain_len e ts
+    obtain ⟨g1, g2⟩ := analyzeChain_len tail (analyzeChain ts e).1
+    simp only [analyzeChain]
     exact ⟨g1, Nat.le_trans h2 g2⟩
+
+theorem analyzeCond_len (e : AttrExp) (ts : List Term) : (analyzeCond ts e).1 ≠ [] ∧ ts.length ≤ (analyzeCond ts e).1.length := by
+  simpa [analyzeCond] using analyzeChain_len e ts
 
 theorem initIndex_wf (c : Ctx) : wfS (initIndex c) = true := by
   simp [initIndex, wfS_iff, wfWs, wfEs, wfE, wfO, wfJs, simpleCol, and_, ge, le, lt]
@@ -261,7 +264,8 @@ theorem randomFilter_wf (c : Ctx) : wfEs (randomFilter c) = true := by
 
 theorem attrCondition_wf (c : Ctx) (terms : List Term) (cond : Cond) (aggAttr : String) (S : Sel) (hne : terms ≠ [])
     (h : attrCondition c terms cond aggAttr = .ok S) : wfS S = true := by
-  unfold attrCondition at h
+  obtain ⟨_, h⟩ := attrCondition_core h
+  unfold attrConditionCore at h
   cases hm : mapOk termSql terms with
   | error e => simp [hm, bind, Except.bind] at h
   | ok es =>
